@@ -234,3 +234,11 @@ def run_asan(name, progs, timeout=900):
         if rc != 0 and "AddressSanitizer" in err:
             reports[b] = err[:6000]
     return obs, reports, dall
+
+
+def classify_miri(err):
+    """'ub' (undefined behaviour / abort in the interpreted program: a verdict) or 'tool' (ICE, unsupported operation,
+    resource trouble: inconclusive)"""
+    if "Undefined Behavior" in err or "abnormal termination" in err:
+        return "ub"
+    return "tool"
